@@ -70,7 +70,7 @@ deriving Repr
 
 inductive POut (σ : Type) where
   | noop
-  | early (status : Nat) (body : σ) (tag : Option σ) (ra : RaOut σ)
+  | early (status : Nat) (body : σ) (tag : Option σ) (ra : RaOut σ) (extra : Nat)   -- `extra`: replayed headers besides X-Tag / Retry-After
   | fired (r : FireRes)
   | advd (n : Nat)
   | unit
@@ -104,7 +104,7 @@ def cstep (cfg : CCfg) (c : CCache σ) : POp σ → CCache σ × POut σ
   | .req m u sel =>
     match get c ⟨m, u, sel⟩ with
     | none => (c, .noop)
-    | some s => (c, .early s.resp.status s.resp.body s.resp.tag (.raw s.resp.ra))
+    | some s => (c, .early s.resp.status s.resp.body s.resp.tag (.raw s.resp.ra) 0)
   | .fire i => ((fire c i).1, .fired (fire c i).2)
   | .skip d => (skip c d, .unit)
   | .adv d => ((adv c d).1, .advd (adv c d).2)
@@ -181,8 +181,8 @@ def tstep (absTtl : AbsTtl) (cfg : TCfg) (c : TCache σ) : POp σ → TCache σ 
         | none => (c, .noop)
         | some ra =>
           if c.now - s.created ≥ ra then (c, .noop)
-          else (c, .early s.resp.status s.resp.body s.resp.tag (.ns (ra - (c.now - s.created))))
-      | _ => (c, .early s.resp.status s.resp.body s.resp.tag (.raw s.resp.ra))
+          else (c, .early s.resp.status s.resp.body s.resp.tag (.ns (ra - (c.now - s.created))) 0)
+      | _ => (c, .early s.resp.status s.resp.body s.resp.tag (.raw s.resp.ra) 0)
   | .fire i => ((fire c i).1, .fired (fire c i).2)
   | .skip d => (skip c d, .unit)
   | .adv d => ((adv c d).1, .advd (adv c d).2)
